@@ -586,7 +586,9 @@ theorem rotate90F_compose_arrays (f : Fld) (hf : FldInv f) (a1 a2 : String) (k l
     g2.valid.shape = g12.valid.shape ∧ g2.data.shape = g12.data.shape ∧
     (∀ j, inRange g12.valid.shape j = true → g2.valid.get j = g12.valid.get j) ∧
     (f.nvdim ≤ 1 → ∀ j, inRange g12.data.shape j = true → g2.data.get j = g12.data.get j) ∧
-    (f.nvdim > 1 → ∃ i1 i2 c1 c2, ∀ j, inRange g12.data.shape j = true →
+    (f.nvdim > 1 → ∃ i1 i2 c1 c2, f.mesh.region.dim2index a1 = .ok i1 ∧ f.mesh.region.dim2index a2 = .ok i2 ∧
+        (f.rDim a1).bind f.vdimIndex = some c1 ∧ (f.rDim a2).bind f.vdimIndex = some c2 ∧
+        ∀ j, inRange g12.data.shape j = true →
         g2.data.get j = rotVec (rotVec ((rot90 f.data i1 i2 (k + l)).get j) c1 c2 k) c1 c2 l ∧
         g12.data.get j = rotVec ((rot90 f.data i1 i2 (k + l)).get j) c1 c2 (k + l)) ∧
     g2.nvdim = g12.nvdim ∧ g2.vdims = g12.vdims ∧ g2.vmap = g12.vmap ∧ g2.unit = g12.unit := by
@@ -648,7 +650,7 @@ theorem rotate90F_compose_arrays (f : Fld) (hf : FldInv f) (a1 a2 : String) (k l
           injection hc1' with hc1'; injection hc2' with hc2'
           injection hc1'' with hc1''; injection hc2'' with hc2''
           subst hc1'; subst hc2'; subst hc1''; subst hc2''
-          refine ⟨i1, i2, c1, c2, ?_⟩
+          refine ⟨i1, i2, c1, c2, d1, d2, hc1, hc2, ?_⟩
           intro j hj
           rw [u, w, e, rot90_map]
           rw [w] at hj
